@@ -169,13 +169,17 @@ Definition role_eqb (a b : role) : bool :=
   | _, _ => false
   end.
 
-(* the recorded known finding: router AssertMinimumReceive has no sender check *)
+(* the recorded known findings: router AssertMinimumReceive has no sender check; route management of a router without wasm admin *)
 Definition known_amr (c : contract) (v : string) : bool :=
   match c with Router => String.eqb v "AssertMinimumReceive" | _ => false end.
 
 (* ---- owners and the decision --------------------------------------------------------------------------------- *)
 (* phase 0: as deployed. phase 1: every top-level contract's ownership transferred admin -> new admin.
-   phase 2: the children's (pair, trio, vault) ownership transferred from their factory to the new admin. *)
+   phase 2: the children's (pair, trio, vault) ownership transferred from their factory to the new admin.
+   phase 3 (router only): the router deployed WITHOUT a wasm admin — helpers.rs::assert_admin then lets everybody through
+   (`if let Some(admin) = contract_info.admin { .. }`): the second known finding. *)
+Definition is_router (c : contract) : bool := match c with Router => true | _ => false end.
+Definition no_admin (c : contract) (phase : Z) : bool := is_router c && Z.eqb phase 3.
 Definition is_child (c : contract) : bool := match c with Pair | Trio | Vault => true | _ => false end.
 Definition owner_at (c : contract) (phase : Z) : caller :=
   if is_child c then (if Z.eqb phase 2 then CNewAdmin else CParent)
@@ -184,7 +188,7 @@ Definition owner_at (c : contract) (phase : Z) : caller :=
 Definition holds (c : contract) (r : role) (phase : Z) (who : caller) : bool :=
   match r with
   | Anyone => true
-  | Owner => caller_eqb who (owner_at c phase)
+  | Owner => caller_eqb who (owner_at c phase) || no_admin c phase
   | Self => caller_eqb who CSelf
   | Lp | AssetToken | VaultOfAsset | DistributorOnly => caller_eqb who CDesignated
   | CreatorOrOwner => caller_eqb who CDesignated || caller_eqb who (owner_at IncentiveFactory phase)
